@@ -756,7 +756,11 @@ func (s String) Split(args Tuple, kwargs StringDict) (Object, error) {
 	)
 	switch v := pyval.(type) {
 	case String:
-		vs = strings.SplitN(string(s), string(v), int(max)+1)
+		n := -1 // a negative maxsplit means no limit
+		if max >= 0 && int(max) < math.MaxInt {
+			n = int(max) + 1
+		}
+		vs = strings.SplitN(string(s), string(v), n)
 	case NoneType:
 		vs = fieldsN(string(s), int(max))
 	default:
